@@ -67,6 +67,16 @@ def showState (s : State) : String :=
   let j := if s.log.isEmpty then "-" else ",".intercalate (s.log.map showItem)
   s!"{j};{showResult s};{if s.closed then 1 else 0}"
 
+def showSock : SockItem → String
+  | .hello => "S"
+  | .inner i => showItem i
+
+/-- what the broker's socket sees, the result, whether the client closed -/
+def showSocket (tls : Bool) (s : State) : String :=
+  let v := socketView tls s
+  let j := if v.isEmpty then "-" else ",".intercalate (v.map showSock)
+  s!"{j};{showResult s};{if s.closed then 1 else 0}"
+
 def parseSeen (s : String) : Option Seen :=
   match s.splitOn ":" with
   | ["av"] => some .apiVersions
@@ -99,13 +109,17 @@ def step (line : String) : String :=
     | ["auth", path, sasl, envs, expect] =>
       let addrOk := !(path.endsWith "!addr")
       let path := if addrOk then path else (path.dropEnd 5).toString
+      let hsOk := !(path.endsWith "+nohs")
+      let path := if hsOk then path else (path.dropEnd 5).toString
+      let tls := path.endsWith "+tls"
+      let path := if tls then (path.dropEnd 4).toString else path
       let p? : Option Path := if path == "dialer" then some .dialer else if path == "transport" then some .transport else none
       match p?, (commaList envs).mapM parseEnv with
       | some p, some es =>
         let c : Cfg := { path := p, sasl := sasl == "1", addrOk := addrOk }
-        let model := match run c es with
-          | some s => showState s
-          | none => match firstRejected c (start c) es 0 with
+        let model := match runTls c tls hsOk es with
+          | some s => showSocket tls s
+          | none => match firstRejected c (startTls c tls hsOk) es 0 with
             | some i => s!"reject@{i}"
             | none => "reject"
         let holds := match impl.splitOn ";" with
@@ -114,9 +128,14 @@ def step (line : String) : String :=
             -- outcome beyond the other clauses (a slow machine must not look like wrong credentials)
             let idle := (commaList envs).contains "IDLE"
             let expect := if idle then "any" else expect
-            match (commaList journal).mapM parseSeen with
+            -- behind TLS the first thing on the broker's socket must be the ClientHello (`S`); anything in clear (`C:…`)
+            -- does not parse as a journal item and fails the line
+            let (tlsOk, inner) := if tls then (match commaList journal with | "S" :: rest => (true, rest) | _ => (false, []))
+                                  else (true, commaList journal)
+            match inner.mapM parseSeen with
             | some seen =>
-              let failed := es.any isFailure
+              tlsOk &&
+              let failed := es.any isFailure || (tls && !hsOk)
               -- with SASL configured the order monitor applies; without it nothing is demanded of the order
               (c.sasl == false || orderHolds seen) &&
               (!failed || (result.startsWith "err" && closed == "1")) &&
